@@ -74,12 +74,12 @@ PROPS["C19"] = dict(
                 "first index, and the model (which tracks the first index per dimension) states which root element every index tuple must designate -- exactly the element the "
                 "zero-based twin designates at the shifted index. Bounded exploration; cannot prove absence."),
     technique="metamorphic/model-based testing: generated view programs on re-based arrays vs an index-mapping model with explicit first indices (rapidcheck + libFuzzer)",
-    rule=("case = header bit selects the C01 program (shape + element checks) or the C02 program (iterators, elements(), cursors); root kind x D in 1..4 x extents 0..7 x base in -3..3 "
+    rule=("case = header selects the C01 program (shape + element checks), the C02 program (iterators, elements(), cursors) or the C06 program (histories of reextent to explicit index extensions with a fill value, construction, copy construction/assignment, element writes and == over two arrays of D in 1..2, compared with an index-tuple -> value model); root kind x D in 1..4 x extents 0..7 x base in -3..3 "
           "per dimension + up to 10 operations incl. reindexed(i) and blocked(a,b); strided(s) only where s divides the current first index (extension() asserts offset % stride == 0) and "
           "diagonal() only on zero-based views (it slices with literal {0,n}); oracle as in C01/C02 with first indices in the model. "
           "non-trivial = as in the replayed program; distinct = hash of decoded case text"),
     assumptions=COMMON_ASSUME + ["re-based arrays with zero elements: only shape operations are applied (slicing trips the recorded null-pointer-offset assertion)",
-                 "assignment (C05) and reextent (C06) on re-based arrays are exercised by the C05/C06 checks' own based variants when present, not here"],
+                 "assignment through views (C05) on re-based arrays is not exercised here"],
 )
 
 PROPS["C04"] = dict(
